@@ -42,6 +42,8 @@ type Profile struct {
 	PDeployExpr int
 	// IgnoreCancel: percent of steps that ignore the cancel signal (forces the closure timeout path).
 	IgnoreCancel int
+	// SoftHang: add a never-ending step that is referenced only through !soft-optional.
+	SoftHang bool
 }
 
 // Doc is a workflow input document.
@@ -273,6 +275,25 @@ func (g *genCtx) genPluginStep(id string) *Step {
 	if g.pct(g.prof.PDisabled, "enabled") {
 		s.Enabled = g.genBool()
 	}
+	if g.prof.Tags && len(g.prior) > 0 {
+		if g.pct(50, "tag_o") {
+			src := g.pickPrior("tag_o_src")
+			if src.Kind == "plugin" {
+				tag := rapid.SampledFrom([]string{"wait-optional", "soft-optional"}).Draw(g.t, "tag_o_kind")
+				s.In = setField(s.In, "o", Opt(tag, StepRef(src.ID, "outputs", "success", "s")))
+			}
+		}
+		if len(g.prior) >= 2 && g.pct(35, "tag_wf") {
+			a, b := g.prior[len(g.prior)-1], g.prior[len(g.prior)-2]
+			if a.Kind == "plugin" && b.Kind == "plugin" {
+				optB := StepRef(b.ID, "outputs", "success")
+				if g.pct(40, "tag_wf_disabled") {
+					optB = StepRef(a.ID, "disabled", "output")
+				}
+				s.WaitFor = OneOf("n_a", F("first", StepRef(a.ID, "outputs", "success")), F("second", optB))
+			}
+		}
+	}
 	if g.pct(g.prof.PDeployFail, "deployfail") {
 		s.Deploy = &Deploy{Mode: Lit("fail")}
 	} else if g.pct(g.prof.PDeploySlow, "deployslow") {
@@ -412,6 +433,28 @@ func GenProgram(t *rapid.T, prof *Profile, doc Doc) *Program {
 			fields = append(fields, F("in", Ref("input", "n")))
 		}
 	}
+	if prof.Tags {
+		for _, s := range p.Steps {
+			if s.Kind != "plugin" {
+				continue
+			}
+			switch rapid.IntRange(0, 6).Draw(t, "out_tag") {
+			case 0:
+				fields = append(fields, F("w_"+s.ID, Opt("wait-optional", StepRef(s.ID, "outputs", "success", "a"))))
+			case 1:
+				fields = append(fields, F("so_"+s.ID, Opt("soft-optional", StepRef(s.ID, "outputs", "success", "s"))))
+			case 2:
+				fields = append(fields, F("od_"+s.ID, Opt("ordisabled", StepRef(s.ID, "outputs", "success"))))
+			case 3:
+				fields = append(fields, F("oo_"+s.ID, OneOf("kind", F("ran", StepRef(s.ID, "outputs", "success")), F("off", StepRef(s.ID, "disabled", "output")))))
+			case 4:
+				fields = append(fields, F("nest_"+s.ID, &Expr{K: "list", Items: []*Expr{
+					Obj(F("item", OneOf("kind", F("ok", StepRef(s.ID, "outputs", "success")), F("err", StepRef(s.ID, "outputs", "error")), F("off", StepRef(s.ID, "disabled", "output")))),
+						F("w", Opt("wait-optional", StepRef(s.ID, "outputs", "success", "nonce")))),
+				}}))
+			}
+		}
+	}
 	if prof.RuntimeErr > 0 && g.pct(prof.RuntimeErr, "rterr") {
 		fields = append(fields, F("rt", g.runtimeErrExpr()))
 	}
@@ -454,6 +497,11 @@ func GenProgram(t *rapid.T, prof *Profile, doc Doc) *Program {
 		} else {
 			p.Outputs = append(p.Outputs, Output{ID: "other", E: Obj(F("x", StepRef(s.ID, "disabled", "output")))})
 		}
+	}
+	if prof.SoftHang {
+		p.Steps = append(p.Steps, &Step{ID: "slow", Kind: "plugin", In: []Field{F("a", Lit(int64(1))), F("mode", Lit("hang"))}})
+		o := &p.Outputs[0]
+		o.E.Fields = append(o.E.Fields, F("so_slow", Opt("soft-optional", StepRef("slow", "outputs", "success", "s"))))
 	}
 	if prof.OnlyErrOutputs && len(p.Outputs) > 1 {
 		p.Outputs = p.Outputs[1:]
